@@ -63,6 +63,12 @@ Theorem C18_conf_2plus1_evict : forall cf, In cf U2112 ->
 Proof. exact (conf_2plus1_evict (eq_refl : shape_ok = true)). Qed.
 Print Assumptions C18_conf_2plus1_evict.
 
+(* U31e = 3 threads x 1 get on files {0,1}, both on disk, max_memory 6 (8 configurations, none racy). *)
+Theorem C18_conf_3x1_evict : forall cf, In cf U31e ->
+  C18_outside_K_statement gen_flags cf /\ (racy cf = false -> C18_full_statement gen_flags cf).
+Proof. exact (conf_3x1_evict (eq_refl : shape_ok = true)). Qed.
+Print Assumptions C18_conf_3x1_evict.
+
 (* The full statement is false on the racy class. K1 = update_file unloads the entry of a pending load:
    {get(0) || update(0)}, file on disk, not cached.  Witness 1: the get returns b"" (torn read), the history
    is not linearizable and current_memory_usage ends at 2 for 7 cached bytes. *)
@@ -96,7 +102,7 @@ Proof. exact k3. Qed.
 (* Non-vacuity: the universes have the stated sizes, contain the witness configurations, contain
    non-racy configurations, and a concrete concurrent history is accepted / a torn one rejected. *)
 Example C18_universe_sizes :
-  length U21 = 144%nat /\ length U22 = 81%nat /\ length U31 = 27%nat /\ length U2112 = 64%nat /\
+  length U21 = 144%nat /\ length U22 = 81%nat /\ length U31 = 27%nat /\ length U2112 = 64%nat /\ length U31e = 8%nat /\ forallb (fun cf => negb (racy cf)) U31e = true /\
   length (filter (fun cf => negb (racy cf)) U2112) = 36%nat /\
   nth_error U21 2 = Some cfg_get_upd /\ nth_error U21 4 = Some cfg_get_unl /\ nth_error U21 16 = Some cfg_upd_unl /\
   length (filter (fun cf => negb (racy cf)) U21) = 96%nat /\
